@@ -151,9 +151,9 @@ PLANS["C08"] = P(
     "model_checking",
     ["verify.lenient.unpack", "verify.claims", "scn.expect.reject", "scn.expect.claims", "scn.model.agrees"],
     [{"module": "MC_malformed", "quick": "MC_malformed_quick.cfg", "thorough": "MC_malformed.cfg", "timeout": {"quick": 300, "thorough": 900}}],
-    [{"driver": "replay", "scn": "MC_malformed", "args": {"n": 800, "matrix": 0}}],
     [{"driver": "replay", "scn": "MC_malformed", "args": {"n": 100000, "matrix": 0}}],
-    required={"verify.lenient.unpack": 500, "verify.claims": 30, "scn.model.agrees": 800},
+    [{"driver": "replay", "scn": "MC_malformed", "args": {"n": 100000, "matrix": 0}}],
+    required={"verify.lenient.unpack": 3000, "verify.claims": 100, "scn.model.agrees": 6000},
     rule="cases = validly signed payload/disclosure structures from MC_malformed: a template with four digest slots (root _sd, array placeholder, nested _sd inside a "
          "disclosed value) and every set of <= 2 deviations out of 76 (15 ill-formed disclosure shapes per slot, duplicated digests within/across/nested, non-string entries, "
          "placeholders with extra members, _sd not an array, _sd_alg variants, withheld disclosures), signed with the test issuer key and verified in both serializations; "
@@ -224,9 +224,10 @@ MANIFEST_TEXT["C13"] = {
 PLANS["C15"] = P(
     "model_checking",
     ["pair.present", "present.ok", "present.exact", "holder.new", "verify.accept", "verify.view", "verify.genuine", "scn.expect.claims", "scn.expect.reject", "scn.model.agrees"],
-    [{"module": "MC_narrow", "quick": "MC_narrow_quick.cfg", "thorough": "MC_narrow.cfg", "timeout": {"quick": 300, "thorough": 3000}}],
-    [{"driver": "replay", "scn": "MC_narrow", "args": {"n": 500, "matrix": 1}}],
-    [{"driver": "replay", "scn": "MC_narrow", "args": {"n": 20000, "matrix": 1}}],
+    [{"module": "MC_narrow", "quick": "MC_narrow_quick.cfg", "thorough": "MC_narrow.cfg", "timeout": {"quick": 300, "thorough": 3000}},
+     {"module": "MC_shapes", "quick": "MC_narrow_shapes.cfg", "thorough": "MC_narrow_shapes.cfg", "timeout": {"quick": 300, "thorough": 600}}],
+    [{"driver": "replay", "scn": "MC_narrow", "args": {"n": 500, "matrix": 1}}, {"driver": "replay", "scn": "MC_shapes", "args": {"n": 700, "matrix": 1}}],
+    [{"driver": "replay", "scn": "MC_narrow", "args": {"n": 20000, "matrix": 1}}, {"driver": "replay", "scn": "MC_shapes", "args": {"n": 100000, "matrix": 1}}],
     required={"pair.present": 500, "present.exact": 1000, "holder.new": 1000, "scn.expect.claims": 300},
     nontrivial_event="Present",
     rule="cases = narrowing chains D1 >= D2 >= .. (quick: up to 3 narrowing steps over all trees of a small universe with arrays of arrays; thorough: all pairs over the larger universe) "
